@@ -66,6 +66,8 @@ type acctServer struct {
 	log     []Rec
 	inc     int
 	seen    map[string]struct{}
+	dropN   int // silently ignore the next dropN authentic requests (real-time scenario only)
+	dropped int
 	badAuth int
 	retrans int
 	other   int
@@ -91,6 +93,8 @@ func (s *acctServer) reset(prefix []Rec, inc int) {
 	s.seen = map[string]struct{}{}
 	s.mu.Unlock()
 }
+
+func (s *acctServer) setDrop(n int) { s.mu.Lock(); s.dropN = n; s.mu.Unlock() }
 
 func (s *acctServer) setInc(inc int) { s.mu.Lock(); s.inc = inc; s.mu.Unlock() }
 
@@ -128,6 +132,14 @@ func (s *acctServer) loop() {
 			s.mu.Unlock()
 			continue
 		}
+		s.mu.Lock()
+		if s.dropN > 0 {
+			s.dropN--
+			s.dropped++
+			s.mu.Unlock()
+			continue
+		}
+		s.mu.Unlock()
 		key := fmt.Sprintf("%s/%d/%x", from.String(), p.Identifier, p.Authenticator[:])
 		r := Rec{}
 		if a := p.Get(40); a != nil {
